@@ -1,8 +1,9 @@
 (* Lemmas and proofs about Model/Accumulator.v and Model/Incentive.v *)
+From Coq Require Import Permutation.
 From Kava Require Import Base.Prelude Base.Dec Model.Accumulator Model.Incentive.
 Local Open Scope Z_scope.
 
-Ltac sproj := cbn [now g_time g_idx tot sh has_claim u_idx rew macc bal integral due nsync claimed emitted accslack].
+Ltac sproj := cbn [now g_time g_idx tot sh has_claim u_idx rew macc bal integral due nsync claimed emitted accslack drift overshare emitted_x].
 
 (** * Finite sums *)
 
@@ -253,7 +254,7 @@ Record Inv (e : env) (st : state) : Prop := {
   I_rew : forall u d, 0 <= rew st u d;
   (* exactness: what was synchronised (unrounded) plus what is still unsynchronised
      is the sum over all accumulations of index increment * shares held then *)
-  I_exact : forall u d, due st u d + phi e st u d = integral st u d;
+  I_exact : forall u d, due st u d + phi e st u d = integral st u d + drift st u d;
   (* the claim differs from the unrounded amount by half a unit (and half an
      18th decimal) per rounding *)
   I_round : forall u d,
@@ -352,8 +353,10 @@ Proof.
   - apply (I_tot e st I).
   - apply (I_noclaim e st I).
   - apply (I_rew e st I).
-  - intros u d. rewrite <- (I_exact e st I u d). unfold phi; sproj.
-    rewrite <- Z.add_assoc, <- sN_add. f_equal. apply sN_ext. intros p _. ring.
+  - intros u d. pose proof (I_exact e st I u d) as E. unfold phi in *; sproj.
+    rewrite (sN_ext (npools e) _ (fun p => (g_idx st p d - u_idx st u p d) * sh st u p + pool_inc e st t p d * sh st u p))
+      by (intros; ring).
+    rewrite sN_add. lia.
   - apply (I_round e st I).
   - apply (I_nsync e st I).
 Qed.
@@ -426,6 +429,152 @@ Proof.
   intros p'. pose proof (I_tot e st I p'). destruct (Nat.eqb p' p); lia.
 Qed.
 
+Lemma revalue_inv e st u p s' st' : Inv e st -> revalue e st u p s' = Ok st' tt -> Inv e st'.
+Proof.
+  intros I H. unfold revalue in H.
+  destruct (in_range e u p) eqn:Er; cbn [negb] in H; [|discriminate].
+  destruct (Z.ltb_spec s' 0); [discriminate|].
+  destruct (negb (has_claim st u) && negb (s' =? 0)) eqn:Hc; [discriminate|].
+  unfold in_range in Er. apply andb_prop in Er. destruct Er as [_ Hp]. apply Nat.ltb_lt in Hp.
+  inversion H; subst st'; clear H. constructor; sproj.
+  - apply (I_time e st I).
+  - apply (I_idx e st I).
+  - intros u' p'. pose proof (I_sh e st I u' p'). destruct (Nat.eqb u' u && Nat.eqb p' p); lia.
+  - apply (I_tot e st I).
+  - intros u' Hc' p'. destruct (Nat.eqb_spec u' u) as [->|]; cbn [andb]; [|apply (I_noclaim e st I u' Hc')].
+    destruct (Nat.eqb_spec p' p) as [->|]; [|apply (I_noclaim e st I u Hc')].
+    rewrite Hc' in Hc. cbn [negb andb] in Hc. destruct (Z.eqb_spec s' 0); [assumption|discriminate].
+  - apply (I_rew e st I).
+  - intros u' d. pose proof (I_exact e st I u' d) as E. unfold phi in *; sproj.
+    destruct (Nat.eqb_spec u' u) as [->|Hne]; [|exact E].
+    rewrite (sN_ext (npools e) _
+           (fun q => if Nat.eqb q p then (g_idx st p d - u_idx st u p d) * s'
+                     else (g_idx st q d - u_idx st u q d) * sh st u q)).
+    + rewrite sN_upd by exact Hp. lia.
+    + intros q _. cbn [andb]. destruct (Nat.eqb_spec q p) as [->|]; reflexivity.
+  - apply (I_round e st I).
+  - apply (I_nsync e st I).
+Qed.
+
+(** the bkava accumulation *)
+
+Lemma dec_quo_zero T : dec_quo 0 T = 0.
+Proof. unfold dec_quo. cbn [Z.mul]. destruct T; reflexivity. Qed.
+
+Lemma bk_rate_nonneg rate v V : 0 <= rate -> 0 <= v -> 0 <= V -> 0 <= bk_rate rate v V.
+Proof.
+  intros Hr Hv HV. unfold bk_rate. destruct (Z.eqb_spec V 0); [lia|].
+  apply dec_quo_nonneg; [apply dec_mul_nonneg; unfold dec_of_int, PREC; nia|unfold dec_of_int, PREC; lia].
+Qed.
+
+Lemma bk_persec_nonneg r dur : 0 <= r -> 0 <= dur -> 0 <= bk_persec r dur.
+Proof.
+  intros Hr Hd. unfold bk_persec. cbv zeta. destruct (Z.leb_spec (secs_of_ns dur) 0); [lia|].
+  apply dec_mul_nonneg; [exact Hr|unfold dec_of_int, PREC; lia].
+Qed.
+
+Lemma bk_rewards_nonneg r dur stk : 0 <= r -> 0 <= dur -> 0 <= stk -> 0 <= bk_rewards r dur stk.
+Proof.
+  intros Hr Hd Hs. unfold bk_rewards. pose proof (bk_persec_nonneg r dur Hr Hd). unfold dec_of_int, PREC. lia.
+Qed.
+
+Lemma bk_increment_nonneg rw T : 0 <= rw -> 0 <= bk_increment rw T.
+Proof.
+  intros H. unfold bk_increment. destruct (Z.leb_spec T 0); [lia|]. apply dec_quo_nonneg; lia.
+Qed.
+
+Lemma bk_emitted_nonneg rw T : 0 <= rw -> 0 <= bk_emitted rw T.
+Proof. intros H. unfold bk_emitted. destruct (T <=? 0); lia. Qed.
+
+(* per bkava accumulation: increment * total <= rewards + total/2 (units 10^36) *)
+Lemma bk_bound rw T : 0 <= rw -> 0 <= T ->
+  2 * (bk_increment rw T * T) <= 2 * bk_emitted rw T * PREC + (if 0 <? bk_emitted rw T then T else 0).
+Proof.
+  intros Hr HT. unfold bk_increment, bk_emitted. destruct (Z.leb_spec T 0); [cbn; lia|].
+  destruct (Z.eq_dec rw 0) as [->|Hne]; [rewrite dec_quo_zero; cbn; lia|].
+  destruct (Z.ltb_spec 0 rw); [|lia].
+  pose proof (dec_quo_bounds rw T Hr ltac:(lia)) as B. cbv zeta in B.
+  set (x := dec_quo rw T) in *.
+  pose proof (Z.div_mod (rw * PREC * PREC) T ltac:(lia)) as E.
+  pose proof (Z.mod_pos_bound (rw * PREC * PREC) T ltac:(lia)) as M.
+  set (t := rw * PREC * PREC / T) in *. set (m := (rw * PREC * PREC) mod T) in *.
+  assert (P1 : 0 < PREC) by reflexivity.
+  assert (2 * (x * T) * PREC <= (2 * (rw * PREC) + T) * PREC) by nia.
+  nia.
+Qed.
+
+Lemma period_ok_spec nd pd : period_ok nd pd = true ->
+  p_start pd <= p_end pd /\ forall d, (d < nd)%nat -> 0 <= p_rate pd d.
+Proof.
+  unfold period_ok. intros H. apply andb_prop in H. destruct H as [H1 H2]. split; [apply Z.leb_le; exact H1|].
+  intros d Hd. rewrite forallb_forall in H2. apply Z.leb_le. apply H2. apply in_seq. lia.
+Qed.
+
+(* what a successful bkava accumulation established about its arguments *)
+Lemma bk_acc_ok e st p pd v V stk st' : Inv e st -> bk_acc e st p pd v V stk = Ok st' tt ->
+  exists dur, (p < npools e)%nat /\ periods e p = None /\ 0 <= dur /\
+  (forall d, 0 <= bk_rw e st p pd v V stk dur d) /\
+  (forall d, (d < ndenoms e)%nat -> 0 <= stk d) /\
+  st' = let rw := bk_rw e st p pd v V stk dur in
+        let inc := fun d => bk_increment (rw d) (tot st p) in
+        mkState (now st)
+            (fun p' => if Nat.eqb p' p then Some (Z.min (p_end pd) (now st)) else g_time st p')
+            (fun p' d => if Nat.eqb p' p then g_idx st p d + inc d else g_idx st p' d)
+            (tot st) (sh st) (has_claim st) (u_idx st) (rew st)
+            (fun d => macc st d + (if Nat.ltb d (ndenoms e) then stk d else 0))
+            (bal st)
+            (fun u d => integral st u d + inc d * sh st u p)
+            (due st) (nsync st) (claimed st) (emitted st)
+            (fun d => accslack st d + (if 0 <? bk_emitted (rw d) (tot st p) then tot st p else 0))
+            (drift st)
+            (fun d => overshare st d + inc d * excess e st p)
+            (fun d => emitted_x st d + bk_emitted (rw d) (tot st p)).
+Proof.
+  intros I H. unfold bk_acc in H.
+  destruct (Nat.ltb_spec p (npools e)) as [Hp|]; cbn [negb] in H; [|discriminate].
+  destruct (periods e p) eqn:Ep; [discriminate|].
+  destruct (period_ok (ndenoms e) pd) eqn:Pk; cbn [negb orb] in H; [|discriminate].
+  destruct (Z.ltb_spec v 0); cbn [orb] in H; [discriminate|].
+  destruct (Z.ltb_spec V v); cbn [orb] in H; [discriminate|].
+  destruct (existsb _ _) eqn:Ex; [discriminate|].
+  destruct (period_ok_spec _ _ Pk) as [Ho Hr].
+  assert (Hprev : (match g_time st p with Some x => x | None => now st end) <= now st).
+  { destruct (g_time st p) as [x|] eqn:Eg; [apply (I_time e st I p x Eg)|lia]. }
+  rewrite elapsed_within_spec in H by lia.
+  inversion H; subst st'; clear H.
+  assert (Hs : forall d, (d < ndenoms e)%nat -> 0 <= stk d).
+  { intros d Hd. destruct (Z.ltb_spec (stk d) 0) as [Hn|]; [|lia]. exfalso.
+    assert (existsb (fun d => stk d <? 0) (seq 0 (ndenoms e)) = true); [|congruence].
+    apply existsb_exists. exists d. split; [apply in_seq; lia|apply Z.ltb_lt; exact Hn]. }
+  eexists. repeat split; try eassumption.
+  - apply Z.le_max_l.
+  - intros d. unfold bk_rw. destruct (Nat.ltb_spec d (ndenoms e)); [|lia].
+    apply bk_rewards_nonneg; [apply bk_rate_nonneg; try lia; apply Hr; assumption|apply Z.le_max_l|apply Hs; assumption].
+Qed.
+
+Lemma bk_acc_inv e st p pd v V stk st' : Inv e st -> bk_acc e st p pd v V stk = Ok st' tt -> Inv e st'.
+Proof.
+  intros I H. destruct (bk_acc_ok _ _ _ _ _ _ _ _ I H) as [dur [Hp [Ep [Hd [Hrw [Hs ->]]]]]].
+  cbv zeta. set (rw := bk_rw e st p pd v V stk dur) in *.
+  assert (Hinc : forall d, 0 <= bk_increment (rw d) (tot st p)) by (intros; apply bk_increment_nonneg; apply Hrw).
+  constructor; sproj.
+  - intros p' x. destruct (Nat.eqb_spec p' p); [intros Hx; inversion Hx; lia|apply (I_time e st I)].
+  - intros u p' d. pose proof (I_idx e st I u p' d). pose proof (I_idx e st I u p d). specialize (Hinc d).
+    destruct (Nat.eqb_spec p' p) as [->|]; lia.
+  - apply (I_sh e st I).
+  - apply (I_tot e st I).
+  - apply (I_noclaim e st I).
+  - apply (I_rew e st I).
+  - intros u d. pose proof (I_exact e st I u d) as E. unfold phi in *; sproj.
+    rewrite (sN_ext (npools e) _
+           (fun q => if Nat.eqb q p then (g_idx st p d - u_idx st u p d) * sh st u p + bk_increment (rw d) (tot st p) * sh st u p
+                     else (g_idx st q d - u_idx st u q d) * sh st u q)).
+    + rewrite sN_upd by exact Hp. lia.
+    + intros q _. destruct (Nat.eqb_spec q p) as [->|]; [ring|reflexivity].
+  - apply (I_round e st I).
+  - apply (I_nsync e st I).
+Qed.
+
 Lemma sync_all_inv e st u : Inv e st -> Inv e (sync_all e st u).
 Proof.
   intros I. unfold sync_all. constructor; sproj.
@@ -495,12 +644,14 @@ Qed.
 
 Lemma step_inv e st o st' : env_wf e -> Inv e st -> step e st o = Ok st' tt -> Inv e st'.
 Proof.
-  intros W I H. destruct o as [t|u p s' T'|p T'|u d m|ok]; cbn [step] in H.
+  intros W I H. destruct o as [t|u p s' T'|p T'|u d m|ok|u p s'|p pd v V stk]; cbn [step] in H.
   - eapply block_inv; eassumption.
   - eapply change_inv; eassumption.
   - eapply set_total_inv; eassumption.
   - eapply claim_inv; eassumption.
   - destruct ok; [inversion H; subst; exact I|discriminate].
+  - eapply revalue_inv; eassumption.
+  - eapply bk_acc_inv; eassumption.
 Qed.
 
 Lemma step'_inv e st o : env_wf e -> Inv e st -> Inv e (step' e st o).
@@ -536,13 +687,13 @@ Proof. intros H1 H2. unfold pending. rewrite H1. f_equal. apply sN_ext. exact H2
 
 (* what GetSynchronizedClaim reports for u is not changed by any position
    change (another user's or u's own), any change of a total, any message that
-   changes no position, nor by another user's claim *)
+   changes no position, nor by another user's claim or revalue *)
 Lemma pending_preserved e st o st' u d :
   Inv e st -> step e st o = Ok st' tt ->
-  match o with Block _ => False | Claim v _ _ => v <> u | _ => True end ->
+  match o with Block _ | BkAcc _ _ _ _ _ => False | Claim v _ _ | Revalue v _ _ => v <> u | _ => True end ->
   pending e st' u d = pending e st u d.
 Proof.
-  intros I H Ho. destruct o as [t|v p s' T'|p T'|v d0 m|ok]; cbn [step] in H; [contradiction| | | |].
+  intros I H Ho. destruct o as [t|v p s' T'|p T'|v d0 m|ok|v p s'|p pd v V stk]; cbn [step] in H; [contradiction| | | | | |contradiction].
   - (* Change *)
     unfold change in H.
     destruct (in_range e v p) eqn:Er; cbn [negb] in H; [|discriminate].
@@ -577,6 +728,43 @@ Proof.
     inversion H; subst st'; clear H. unfold pending, sync_all; sproj.
     destruct (Nat.eqb_spec u v) as [->|Hne]; [congruence|]. cbn [andb]. reflexivity.
   - destruct ok; [inversion H; subst; reflexivity|discriminate].
+  - (* Revalue of another user *)
+    unfold revalue in H. destruct (negb _); [discriminate|]. destruct (_ <? _); [discriminate|].
+    destruct (_ && _); [discriminate|]. inversion H; subst st'; clear H. unfold pending; sproj.
+    f_equal. apply sN_ext. intros q _. destruct (Nat.eqb_spec u v) as [->|Hne]; [congruence|]. reflexivity.
+Qed.
+
+(* a revalue moves the user's own unsynchronised reward by the accrued index
+   difference times the change of shares (re-rounded), and nothing else *)
+Lemma pending_revalue e st u p s' st' d :
+  revalue e st u p s' = Ok st' tt ->
+  pending e st' u d = pending e st u d
+     - sync_reward (g_idx st p d - u_idx st u p d) (sh st u p)
+     + sync_reward (g_idx st p d - u_idx st u p d) s'.
+Proof.
+  intros H. unfold revalue in H.
+  destruct (in_range e u p) eqn:Er; cbn [negb] in H; [|discriminate].
+  destruct (_ <? _); [discriminate|]. destruct (_ && _); [discriminate|].
+  unfold in_range in Er. apply andb_prop in Er. destruct Er as [_ Hp]. apply Nat.ltb_lt in Hp.
+  inversion H; subst st'; clear H. unfold pending; sproj. rewrite Nat.eqb_refl.
+  rewrite (sN_ext (npools e) _
+         (fun q => if Nat.eqb q p then sync_reward (g_idx st p d - u_idx st u p d) s'
+                   else sync_reward (g_idx st q d - u_idx st u q d) (sh st u q))).
+  - rewrite sN_upd by exact Hp. lia.
+  - intros q _. cbn [andb]. destruct (Nat.eqb_spec q p) as [->|]; reflexivity.
+Qed.
+
+(* ... which is within one rounding of (index difference) * (change of shares) *)
+Lemma pending_revalue_bound e st u p s' st' d :
+  revalue e st u p s' = Ok st' tt ->
+  Z.abs ((pending e st' u d - pending e st u d) * (PREC * PREC)
+         - (g_idx st p d - u_idx st u p d) * (s' - sh st u p)) <= PREC * PREC + PREC.
+Proof.
+  intros H. rewrite (pending_revalue e st u p s' st' d H).
+  pose proof (sync_reward_bounds (g_idx st p d - u_idx st u p d) (sh st u p)) as B1.
+  pose proof (sync_reward_bounds (g_idx st p d - u_idx st u p d) s') as B2.
+  set (a := sync_reward _ (sh st u p)) in *. set (b := sync_reward _ s') in *.
+  set (dI := g_idx st p d - u_idx st u p d) in *. unfold PREC in *. lia.
 Qed.
 
 (* a block moves u's accrued reward only through the global indexes and u's own
@@ -698,7 +886,7 @@ Qed.
    (synchronised claim + already claimed) * 10^36 is within
    (roundings so far + one per pool) * (10^36 + 10^18) / 2 of the exact integral *)
 Lemma pending_is_integral e st u d : Inv e st ->
-  2 * Z.abs ((pending e st u d + claimed st u d) * (PREC * PREC) - integral st u d)
+  2 * Z.abs ((pending e st u d + claimed st u d) * (PREC * PREC) - (integral st u d + drift st u d))
   <= (nsync st u d + Z.of_nat (npools e)) * (PREC * PREC + PREC).
 Proof.
   intros I. pose proof (sync_all_inv e st u I) as J.
@@ -710,6 +898,7 @@ Proof.
   rewrite P0 in E.
   replace (claimed (sync_all e st u) u d) with (claimed st u d) in R by reflexivity.
   replace (integral (sync_all e st u) u d) with (integral st u d) in E by reflexivity.
+  replace (drift (sync_all e st u) u d) with (drift st u d) in E by reflexivity.
   replace (nsync (sync_all e st u) u d) with (nsync st u d + Z.of_nat (npools e)) in R
     by (unfold sync_all; sproj; rewrite Nat.eqb_refl; reflexivity).
   lia.
@@ -717,48 +906,72 @@ Qed.
 
 (** * Never over-distributed *)
 
-Definition side (e : env) (st : state) (o : op) : Prop :=
-  match o with
-  | Block _ => forall p, (p < npools e)%nat -> shares_sum e st p <= tot st p
-  | _ => True
-  end.
-
-Fixpoint sides_ok (e : env) (st : state) (ops : list op) : Prop :=
-  match ops with
-  | [] => True
-  | o :: r => side e st o /\ sides_ok e (step' e st o) r
-  end.
-
+(* the emission bound on the exact integrals holds along EVERY history, with the
+   explicit term [overshare] for accumulations at which the users' shares
+   exceeded the total the accumulation divided by *)
 Definition OverInv (e : env) (st : state) : Prop :=
-  forall d, 2 * sumN (nusers e) (fun u => integral st u d)
-            <= 2 * emitted st d * (PREC * PREC) + accslack st d.
+  forall d, 0 <= overshare st d /\
+            2 * sumN (nusers e) (fun u => integral st u d)
+            <= 2 * emitted st d * (PREC * PREC) + 2 * emitted_x st d * PREC + accslack st d
+               + 2 * overshare st d.
 
-Lemma block_over e st t st' : env_wf e -> Inv e st -> side e st (Block t) ->
+Lemma excess_nonneg e st p : 0 <= excess e st p.
+Proof. unfold excess. apply Z.le_max_l. Qed.
+
+Lemma shares_le_tot_excess e st p : shares_sum e st p <= tot st p + excess e st p.
+Proof. unfold excess. lia. Qed.
+
+Lemma block_over e st t st' : env_wf e -> Inv e st ->
   OverInv e st -> block e st t = Ok st' tt -> OverInv e st'.
 Proof.
-  intros W I S O H. unfold block in H. destruct (Z.ltb_spec t (now st)); [discriminate|].
+  intros W I O H. unfold block in H. destruct (Z.ltb_spec t (now st)); [discriminate|].
   destruct (existsb _ _); [discriminate|]. inversion H; subst st'; clear H.
-  intros d. specialize (O d). sproj.
+  intros d. destruct (O d) as [O0 O1]. sproj.
+  assert (N : 0 <= sumN (npools e) (fun p => pool_inc e st t p d * excess e st p)).
+  { apply sN_nonneg. intros p _. pose proof (pool_inc_nonneg e st t p d W I ltac:(lia)).
+    pose proof (excess_nonneg e st p). nia. }
+  split; [lia|].
   rewrite sN_add.
   rewrite (sN_swap (nusers e) (npools e) (fun u p => pool_inc e st t p d * sh st u p)).
   assert (B : 2 * sumN (npools e) (fun p => sumN (nusers e) (fun u => pool_inc e st t p d * sh st u p))
-              <= sumN (npools e) (fun p => 2 * pool_emit e st t p d * PREC * PREC + pool_slack e st t p d)).
+              <= sumN (npools e) (fun p => 2 * pool_emit e st t p d * PREC * PREC + pool_slack e st t p d
+                                           + 2 * (pool_inc e st t p d * excess e st p))).
   { rewrite <- sN_scale. apply sN_le. intros p Hp. rewrite sN_scale.
     pose proof (pool_bound e st t p d W I ltac:(lia)) as PB.
     pose proof (pool_inc_nonneg e st t p d W I ltac:(lia)) as PN.
-    specialize (S p Hp). unfold shares_sum in S.
-    assert (pool_inc e st t p d * sumN (nusers e) (fun u => sh st u p) <= pool_inc e st t p d * tot st p) by nia.
+    pose proof (shares_le_tot_excess e st p) as S. unfold shares_sum in S.
+    assert (pool_inc e st t p d * sumN (nusers e) (fun u => sh st u p)
+            <= pool_inc e st t p d * tot st p + pool_inc e st t p d * excess e st p) by nia.
     lia. }
-  rewrite sN_add in B.
+  rewrite !sN_add in B.
   rewrite (sN_ext (npools e) (fun p => 2 * pool_emit e st t p d * PREC * PREC)
              (fun p => (2 * PREC * PREC) * pool_emit e st t p d)) in B by (intros; ring).
-  rewrite sN_scale in B. lia.
+  rewrite !sN_scale in B. lia.
 Qed.
 
-Lemma step_over e st o st' : env_wf e -> Inv e st -> side e st o ->
+Lemma bk_acc_over e st p pd v V stk st' : Inv e st ->
+  OverInv e st -> bk_acc e st p pd v V stk = Ok st' tt -> OverInv e st'.
+Proof.
+  intros I O H. destruct (bk_acc_ok _ _ _ _ _ _ _ _ I H) as [dur [Hp [Ep [Hd [Hrw [Hs ->]]]]]].
+  cbv zeta. set (rw := bk_rw e st p pd v V stk dur) in *.
+  intros d. destruct (O d) as [O0 O1]. sproj.
+  pose proof (bk_increment_nonneg (rw d) (tot st p) (Hrw d)) as PN.
+  pose proof (excess_nonneg e st p) as EN.
+  split; [nia|].
+  rewrite sN_add.
+  rewrite (sN_scale (nusers e) (bk_increment (rw d) (tot st p)) (fun u => sh st u p)).
+  fold (shares_sum e st p).
+  pose proof (bk_bound (rw d) (tot st p) (Hrw d) (I_tot e st I p)) as BB.
+  pose proof (shares_le_tot_excess e st p) as S.
+  assert (bk_increment (rw d) (tot st p) * shares_sum e st p
+          <= bk_increment (rw d) (tot st p) * tot st p + bk_increment (rw d) (tot st p) * excess e st p) by nia.
+  lia.
+Qed.
+
+Lemma step_over e st o st' : env_wf e -> Inv e st ->
   OverInv e st -> step e st o = Ok st' tt -> OverInv e st'.
 Proof.
-  intros W I S O H. destruct o as [t|u p s' T'|p T'|u d m|ok]; cbn [step] in H.
+  intros W I O H. destruct o as [t|u p s' T'|p T'|u d m|ok|u p s'|p pd v V stk]; cbn [step] in H.
   - eapply block_over; eassumption.
   - unfold change in H. destruct (negb _); [discriminate|]. destruct (_ || _); [discriminate|].
     destruct (_ =? 0); [inversion H; subst; exact O|].
@@ -771,13 +984,16 @@ Proof.
     destruct (_ <? 0); [discriminate|]. destruct (_ =? 0); [discriminate|]. destruct (_ <? _); [discriminate|].
     inversion H; subst; exact O.
   - destruct ok; [inversion H; subst; exact O|discriminate].
+  - unfold revalue in H. destruct (negb _); [discriminate|]. destruct (_ <? _); [discriminate|].
+    destruct (_ && _); [discriminate|]. inversion H; subst; exact O.
+  - eapply bk_acc_over; eassumption.
 Qed.
 
-Lemma run_over e ops : forall st, env_wf e -> Inv e st -> OverInv e st -> sides_ok e st ops ->
+Lemma run_over e ops : forall st, env_wf e -> Inv e st -> OverInv e st ->
   OverInv e (run e st ops) /\ Inv e (run e st ops).
 Proof.
-  induction ops as [|o ops IH]; intros st W I O S; [split; assumption|].
-  cbn [run fold_left]. destruct S as [S1 S2]. apply IH; try assumption.
+  induction ops as [|o ops IH]; intros st W I O; [split; assumption|].
+  cbn [run fold_left]. apply IH; try assumption.
   - apply step'_inv; assumption.
   - unfold step' in *. destruct (step e st o) as [s' []| |] eqn:E; [|exact O|exact O].
     eapply step_over; eassumption.
@@ -785,23 +1001,107 @@ Qed.
 
 (* total ever credited (still in claims + already claimed), and even what
    GetSynchronizedClaim would report on top, never exceeds the emission by more
-   than the rounding slack *)
+   than the rounding slack, the overshare and the revalue drift *)
 Lemma credited_le_emission e st d : Inv e st -> OverInv e st ->
   2 * sumN (nusers e) (fun u => pending e st u d + claimed st u d) * (PREC * PREC)
-  <= 2 * emitted st d * (PREC * PREC) + accslack st d
+  <= 2 * emitted st d * (PREC * PREC) + 2 * emitted_x st d * PREC + accslack st d
+     + 2 * overshare st d + 2 * sumN (nusers e) (fun u => drift st u d)
      + sumN (nusers e) (fun u => nsync st u d + Z.of_nat (npools e)) * (PREC * PREC + PREC).
 Proof.
-  intros I O. specialize (O d).
+  intros I O. destruct (O d) as [_ O1].
   assert (B : sumN (nusers e) (fun u => 2 * ((pending e st u d + claimed st u d) * (PREC * PREC)))
-              <= sumN (nusers e) (fun u => 2 * integral st u d + (nsync st u d + Z.of_nat (npools e)) * (PREC * PREC + PREC))).
+              <= sumN (nusers e) (fun u => 2 * integral st u d + 2 * drift st u d
+                                           + (nsync st u d + Z.of_nat (npools e)) * (PREC * PREC + PREC))).
   { apply sN_le. intros u _. pose proof (pending_is_integral e st u d I). lia. }
-  rewrite sN_add, !sN_scale in B.
+  rewrite !sN_add, !sN_scale in B.
   rewrite (sN_ext (nusers e) (fun u => (pending e st u d + claimed st u d) * (PREC * PREC))
              (fun u => (PREC * PREC) * (pending e st u d + claimed st u d))) in B by (intros; ring).
   rewrite sN_scale in B.
   rewrite (sN_ext (nusers e) (fun u => (nsync st u d + Z.of_nat (npools e)) * (PREC * PREC + PREC))
              (fun u => (PREC * PREC + PREC) * (nsync st u d + Z.of_nat (npools e)))) in B by (intros; ring).
   rewrite sN_scale in B. lia.
+Qed.
+
+(** the side-condition: sum of the users' shares <= total whenever time is accumulated *)
+Definition side (e : env) (st : state) (o : op) : Prop :=
+  match o with
+  | Block _ => forall p, (p < npools e)%nat -> shares_sum e st p <= tot st p
+  | BkAcc p _ _ _ _ => (p < npools e)%nat -> shares_sum e st p <= tot st p
+  | _ => True
+  end.
+
+Fixpoint sides_ok (e : env) (st : state) (ops : list op) : Prop :=
+  match ops with
+  | [] => True
+  | o :: r => side e st o /\ sides_ok e (step' e st o) r
+  end.
+
+Lemma excess_zero e st p : shares_sum e st p <= tot st p -> excess e st p = 0.
+Proof. unfold excess. lia. Qed.
+
+(* under the side-condition nothing is ever added to [overshare] *)
+Lemma step_overshare e st o st' d : Inv e st -> side e st o -> step e st o = Ok st' tt ->
+  overshare st' d = overshare st d.
+Proof.
+  intros I S H. destruct o as [t|u p s' T'|p T'|u d0 m|ok|u p s'|p pd v V stk]; cbn [step] in H; cbn [side] in S.
+  - unfold block in H. destruct (_ <? _); [discriminate|]. destruct (existsb _ _); [discriminate|].
+    inversion H; subst st'; clear H. sproj. rewrite sN_zero; [lia|].
+    intros p Hp. rewrite (excess_zero e st p (S p Hp)). lia.
+  - unfold change in H. destruct (negb _); [discriminate|]. destruct (_ || _); [discriminate|].
+    destruct (_ =? 0); [inversion H; subst; reflexivity|].
+    destruct (has_claim st u); [|inversion H; subst; reflexivity].
+    destruct (sync_ok e st u p); [inversion H; subst; reflexivity|discriminate].
+  - unfold set_total in H. destruct (_ || _); [discriminate|]. inversion H; subst; reflexivity.
+  - unfold claim in H. destruct m as [m|]; [|discriminate].
+    destruct (negb _); [discriminate|]. destruct (_ <? _); [discriminate|].
+    destruct (negb (has_claim st u)); [discriminate|]. destruct (negb _); [discriminate|].
+    destruct (_ <? 0); [discriminate|]. destruct (_ =? 0); [discriminate|]. destruct (_ <? _); [discriminate|].
+    inversion H; subst; reflexivity.
+  - destruct ok; [inversion H; subst; reflexivity|discriminate].
+  - unfold revalue in H. destruct (negb _); [discriminate|]. destruct (_ <? _); [discriminate|].
+    destruct (_ && _); [discriminate|]. inversion H; subst; reflexivity.
+  - destruct (bk_acc_ok _ _ _ _ _ _ _ _ I H) as [dur [Hp [Ep [Hd [Hrw [Hs ->]]]]]]. cbv zeta. sproj.
+    rewrite (excess_zero e st p (S Hp)). lia.
+Qed.
+
+Lemma run_overshare e ops : forall st d, env_wf e -> Inv e st -> sides_ok e st ops ->
+  overshare (run e st ops) d = overshare st d.
+Proof.
+  induction ops as [|o ops IH]; intros st d W I S; [reflexivity|].
+  cbn [run fold_left]. destruct S as [S1 S2]. fold (run e (step' e st o) ops).
+  rewrite IH; [|exact W|apply step'_inv; assumption|exact S2].
+  unfold step'. destruct (step e st o) as [s' []| |] eqn:E; [|reflexivity|reflexivity].
+  eapply step_overshare; eassumption.
+Qed.
+
+(* [drift] moves only in a revalue of that user, by (index difference) * (change of shares) *)
+Lemma drift_step e st o st' u d : step e st o = Ok st' tt ->
+  drift st' u d = drift st u d
+    + match o with
+      | Revalue v p s' => if Nat.eqb u v then (g_idx st p d - u_idx st u p d) * (s' - sh st u p) else 0
+      | _ => 0
+      end.
+Proof.
+  intros H. destruct o as [t|v p s' T'|p T'|v d0 m|ok|v p s'|p pd v V stk]; cbn [step] in H.
+  - unfold block in H. destruct (_ <? _); [discriminate|]. destruct (existsb _ _); [discriminate|].
+    inversion H; subst; sproj; lia.
+  - unfold change in H. destruct (negb _); [discriminate|]. destruct (_ || _); [discriminate|].
+    destruct (_ =? 0); [inversion H; subst; unfold set_shares, init_claim; sproj; lia|].
+    destruct (has_claim st v); [|inversion H; subst; unfold set_shares; sproj; lia].
+    destruct (sync_ok e st v p); [inversion H; subst; unfold set_shares, sync_pool; sproj; lia|discriminate].
+  - unfold set_total in H. destruct (_ || _); [discriminate|]. inversion H; subst; sproj; lia.
+  - unfold claim in H. destruct m as [m|]; [|discriminate].
+    destruct (negb _); [discriminate|]. destruct (_ <? _); [discriminate|].
+    destruct (negb (has_claim st v)); [discriminate|]. destruct (negb _); [discriminate|].
+    destruct (_ <? 0); [discriminate|]. destruct (_ =? 0); [discriminate|]. destruct (_ <? _); [discriminate|].
+    inversion H; subst; sproj; lia.
+  - destruct ok; [inversion H; subst; lia|discriminate].
+  - unfold revalue in H. destruct (negb _); [discriminate|]. destruct (_ <? _); [discriminate|].
+    destruct (_ && _); [discriminate|]. inversion H; subst st'; clear H. sproj.
+    destruct (Nat.eqb_spec u v) as [->|]; lia.
+  - unfold bk_acc in H. destruct (negb _); [discriminate|]. destruct (periods e p); [discriminate|].
+    destruct (_ || _); [discriminate|]. destruct (elapsed_within _ _ _ _); [|discriminate].
+    inversion H; subst; sproj; lia.
 Qed.
 
 (** sources whose total is exactly the sum of the user shares (swap) satisfy the
@@ -813,6 +1113,7 @@ Definition exact_op (st : state) (o : op) : Prop :=
   match o with
   | Change u p s' T' => T' = tot st p - sh st u p + s'
   | SetTotal p T' => T' = tot st p
+  | Revalue u p s' => s' = sh st u p
   | _ => True
   end.
 
@@ -835,7 +1136,7 @@ Qed.
 
 Lemma step_exact e st o st' : ExactTot e st -> exact_op st o -> step e st o = Ok st' tt -> ExactTot e st'.
 Proof.
-  intros X Eo H. destruct o as [t|u p s' T'|p T'|u d m|ok]; cbn [step] in H; cbn [exact_op] in Eo.
+  intros X Eo H. destruct o as [t|u p s' T'|p T'|u d m|ok|u p s'|p pd v V stk]; cbn [step] in H; cbn [exact_op] in Eo.
   - unfold block in H. destruct (_ <? _); [discriminate|]. destruct (existsb _ _); [discriminate|].
     inversion H; subst; exact X.
   - unfold change in H. destruct (in_range e u p) eqn:Er; cbn [negb] in H; [|discriminate].
@@ -858,13 +1159,21 @@ Proof.
     destruct (_ <? 0); [discriminate|]. destruct (_ =? 0); [discriminate|]. destruct (_ <? _); [discriminate|].
     inversion H; subst; exact X.
   - destruct ok; [inversion H; subst; exact X|discriminate].
+  - unfold revalue in H. destruct (negb _); [discriminate|]. destruct (_ <? _); [discriminate|].
+    destruct (_ && _); [discriminate|]. inversion H; subst st'; clear H.
+    intros q Hq. sproj. rewrite <- (X q Hq). unfold shares_sum; sproj. apply sN_ext. intros u' _.
+    destruct (Nat.eqb_spec u' u) as [->|]; cbn [andb]; [|reflexivity].
+    destruct (Nat.eqb_spec q p) as [->|]; [exact Eo|reflexivity].
+  - unfold bk_acc in H. destruct (negb _); [discriminate|]. destruct (periods e p); [discriminate|].
+    destruct (_ || _); [discriminate|]. destruct (elapsed_within _ _ _ _); [|discriminate].
+    inversion H; subst; exact X.
 Qed.
 
 Lemma exact_sides e ops : forall st, ExactTot e st -> exact_ops e st ops -> sides_ok e st ops.
 Proof.
   induction ops as [|o ops IH]; intros st X E; [exact Logic.I|].
   destruct E as [E1 E2]. split.
-  - destruct o; cbn [side]; try exact Logic.I. intros p Hp. rewrite (X p Hp). lia.
+  - destruct o; cbn [side]; try exact Logic.I; intros; rewrite X by assumption; lia.
   - apply IH; [|exact E2]. unfold step'. destruct (step e st o) as [s' []| |] eqn:Es; [|exact X|exact X].
     eapply step_exact; eassumption.
 Qed.
@@ -945,14 +1254,15 @@ Qed.
 
 (** * Meaning of the history variables *)
 
-(* [integral] moves only in a block, by (index increment) * (shares held) per pool *)
+(* [integral] moves only when time is accumulated (block, bkava accumulation), by
+   (index increment) * (shares held) per pool *)
 Lemma integral_step e st o st' u d : step e st o = Ok st' tt ->
   integral st' u d = integral st u d
     + sumN (npools e) (fun p => (g_idx st' p d - g_idx st p d) * sh st u p)
   /\ emitted st' d = emitted st d
     + match o with Block t => sumN (npools e) (fun p => pool_emit e st t p d) | _ => 0 end.
 Proof.
-  intros H. destruct o as [t|v p s' T'|p T'|v d0 m|ok]; cbn [step] in H.
+  intros H. destruct o as [t|v p s' T'|p T'|v d0 m|ok|v p s'|p pd v V stk]; cbn [step] in H.
   - unfold block in H. destruct (_ <? _); [discriminate|]. destruct (existsb _ _); [discriminate|].
     inversion H; subst st'; clear H. sproj. split; [|reflexivity]. f_equal. apply sN_ext. intros p _. ring.
   - unfold change in H. destruct (negb _); [discriminate|]. destruct (_ || _); [discriminate|].
@@ -969,6 +1279,16 @@ Proof.
     destruct (_ <? 0); [discriminate|]. destruct (_ =? 0); [discriminate|]. destruct (_ <? _); [discriminate|].
     inversion H; subst; sproj. rewrite sN_zero by (intros; ring). lia.
   - destruct ok; [inversion H; subst|discriminate]. rewrite sN_zero by (intros; ring). lia.
+  - unfold revalue in H. destruct (negb _); [discriminate|]. destruct (_ <? _); [discriminate|].
+    destruct (_ && _); [discriminate|]. inversion H; subst; sproj. rewrite sN_zero by (intros; ring). lia.
+  - unfold bk_acc in H. destruct (Nat.ltb_spec p (npools e)) as [Hp|]; cbn [negb] in H; [|discriminate].
+    destruct (periods e p); [discriminate|].
+    destruct (_ || _); [discriminate|]. destruct (elapsed_within _ _ _ _) as [dur|]; [|discriminate].
+    inversion H; subst st'; clear H. sproj. split; [|lia]. f_equal.
+    set (inc := bk_increment _ _).
+    rewrite (sN_ext (npools e) _ (fun q => if Nat.eqb q p then inc * sh st u p else 0)).
+    + rewrite (sN_upd (npools e) (fun _ => 0) p (inc * sh st u p) Hp). rewrite sN_zero by reflexivity. lia.
+    + intros q _. destruct (Nat.eqb_spec q p) as [->|]; ring.
 Qed.
 
 (* the emission the module counts for one pool in one block: rate * whole seconds of
@@ -989,16 +1309,41 @@ Qed.
 Lemma step_no_panic e st o : env_wf e -> Inv e st ->
   match o with Claim _ _ (Some m) => 0 <= m | _ => True end -> step e st o <> Panic.
 Proof.
-  intros W I Hm. destruct o as [t|u p s' T'|p T'|u d m|ok]; cbn [step].
+  intros W I Hm. destruct o as [t|u p s' T'|p T'|u d m|ok|u p s'|p pd v V stk]; cbn [step].
   - apply block_no_panic; assumption.
   - apply change_no_panic; assumption.
   - unfold set_total. destruct (_ || _); discriminate.
   - apply claim_no_panic; [assumption|]. destruct m; [exact Hm|lia].
   - destruct ok; discriminate.
+  - unfold revalue. destruct (negb _); [discriminate|]. destruct (_ <? _); [discriminate|].
+    destruct (_ && _); discriminate.
+  - unfold bk_acc. destruct (negb _); [discriminate|]. destruct (periods e p); [discriminate|].
+    destruct (period_ok (ndenoms e) pd) eqn:Pk; cbn [negb orb]; [|discriminate].
+    destruct (_ || _); [discriminate|].
+    destruct (period_ok_spec _ _ Pk) as [Ho _].
+    assert (Hprev : (match g_time st p with Some x => x | None => now st end) <= now st).
+    { destruct (g_time st p) as [x|] eqn:Eg; [apply (I_time e st I p x Eg)|lia]. }
+    rewrite elapsed_within_spec by lia. discriminate.
 Qed.
 
 Lemma init_over e t0 m0 gt0 tot0 : OverInv e (init t0 m0 gt0 tot0).
 Proof. intros d. unfold init; sproj. rewrite sN_zero by reflexivity. lia. Qed.
+
+(* the emission bound for EVERY history from the initial state: explicit terms for
+   the accumulations at which the users' shares exceeded the total ([overshare])
+   and for the revalues ([drift]) *)
+Lemma no_over_distribution_all e t0 m0 gt0 tot0 ops d :
+  env_wf e -> (forall p x, gt0 p = Some x -> x <= t0) -> (forall p, 0 <= tot0 p) ->
+  let st := run e (init t0 m0 gt0 tot0) ops in
+  2 * sumN (nusers e) (fun u => pending e st u d + claimed st u d) * (PREC * PREC)
+  <= 2 * emitted st d * (PREC * PREC) + 2 * emitted_x st d * PREC + accslack st d
+     + 2 * overshare st d + 2 * sumN (nusers e) (fun u => drift st u d)
+     + sumN (nusers e) (fun u => nsync st u d + Z.of_nat (npools e)) * (PREC * PREC + PREC).
+Proof.
+  intros W G GT st.
+  destruct (run_over e ops (init t0 m0 gt0 tot0) W (init_inv e t0 m0 gt0 tot0 G GT) (init_over e t0 m0 gt0 tot0)) as [O I].
+  apply credited_le_emission; assumption.
+Qed.
 
 (* the bound, from the initial state, for every history whose blocks see
    sum of shares <= total *)
@@ -1007,10 +1352,317 @@ Lemma no_over_distribution e t0 m0 gt0 tot0 ops d :
   sides_ok e (init t0 m0 gt0 tot0) ops ->
   let st := run e (init t0 m0 gt0 tot0) ops in
   2 * sumN (nusers e) (fun u => pending e st u d + claimed st u d) * (PREC * PREC)
-  <= 2 * emitted st d * (PREC * PREC) + accslack st d
+  <= 2 * emitted st d * (PREC * PREC) + 2 * emitted_x st d * PREC + accslack st d
+     + 2 * sumN (nusers e) (fun u => drift st u d)
      + sumN (nusers e) (fun u => nsync st u d + Z.of_nat (npools e)) * (PREC * PREC + PREC).
 Proof.
   intros W G GT S st.
-  destruct (run_over e ops (init t0 m0 gt0 tot0) W (init_inv e t0 m0 gt0 tot0 G GT) (init_over e t0 m0 gt0 tot0) S) as [O I].
-  apply credited_le_emission; assumption.
+  pose proof (no_over_distribution_all e t0 m0 gt0 tot0 ops d W G GT) as B. cbv zeta in B. fold st in B.
+  pose proof (run_overshare e ops (init t0 m0 gt0 tot0) d W (init_inv e t0 m0 gt0 tot0 G GT) S) as Z0.
+  fold st in Z0. replace (overshare (init t0 m0 gt0 tot0) d) with 0 in Z0 by reflexivity. lia.
+Qed.
+
+(** * Histories without revalues / without bkava accumulations *)
+
+Definition is_revalue (o : op) : bool := match o with Revalue _ _ _ => true | _ => false end.
+Definition is_bkacc (o : op) : bool := match o with BkAcc _ _ _ _ _ => true | _ => false end.
+
+Lemma run_no_revalue e ops : forall st u d, forallb (fun o => negb (is_revalue o)) ops = true ->
+  drift (run e st ops) u d = drift st u d.
+Proof.
+  induction ops as [|o ops IH]; intros st u d F; [reflexivity|].
+  cbn [forallb] in F. apply andb_prop in F. destruct F as [F1 F2].
+  cbn [run fold_left]. fold (run e (step' e st o) ops). rewrite IH by exact F2.
+  unfold step'. destruct (step e st o) as [s' []| |] eqn:E; [|reflexivity|reflexivity].
+  rewrite (drift_step e st o s' u d E). destruct o; try lia. discriminate.
+Qed.
+
+(* [emitted_x] moves only in a bkava accumulation *)
+Lemma emitted_x_step e st o st' d : step e st o = Ok st' tt -> is_bkacc o = false ->
+  emitted_x st' d = emitted_x st d.
+Proof.
+  intros H N. destruct o as [t|v p s' T'|p T'|v d0 m|ok|v p s'|p pd v V stk]; cbn [step] in H; [| | | | | |discriminate].
+  - unfold block in H. destruct (_ <? _); [discriminate|]. destruct (existsb _ _); [discriminate|].
+    inversion H; subst; reflexivity.
+  - unfold change in H. destruct (negb _); [discriminate|]. destruct (_ || _); [discriminate|].
+    destruct (_ =? 0); [inversion H; subst; reflexivity|].
+    destruct (has_claim st v); [|inversion H; subst; reflexivity].
+    destruct (sync_ok e st v p); [inversion H; subst; reflexivity|discriminate].
+  - unfold set_total in H. destruct (_ || _); [discriminate|]. inversion H; subst; reflexivity.
+  - unfold claim in H. destruct m as [m|]; [|discriminate].
+    destruct (negb _); [discriminate|]. destruct (_ <? _); [discriminate|].
+    destruct (negb (has_claim st v)); [discriminate|]. destruct (negb _); [discriminate|].
+    destruct (_ <? 0); [discriminate|]. destruct (_ =? 0); [discriminate|]. destruct (_ <? _); [discriminate|].
+    inversion H; subst; reflexivity.
+  - destruct ok; [inversion H; subst; reflexivity|discriminate].
+  - unfold revalue in H. destruct (negb _); [discriminate|]. destruct (_ <? _); [discriminate|].
+    destruct (_ && _); [discriminate|]. inversion H; subst; reflexivity.
+Qed.
+
+Lemma run_no_bkacc e ops : forall st d, forallb (fun o => negb (is_bkacc o)) ops = true ->
+  emitted_x (run e st ops) d = emitted_x st d.
+Proof.
+  induction ops as [|o ops IH]; intros st d F; [reflexivity|].
+  cbn [forallb] in F. apply andb_prop in F. destruct F as [F1 F2].
+  cbn [run fold_left]. fold (run e (step' e st o) ops). rewrite IH by exact F2.
+  unfold step'. destruct (step e st o) as [s' []| |] eqn:E; [|reflexivity|reflexivity].
+  apply (emitted_x_step e st o s' d E). destruct (is_bkacc o); [discriminate|reflexivity].
+Qed.
+
+(** * The bkava vaults: proportional split and accumulation *)
+
+Lemma bk_rate_is_index_increment rate v V : V <> 0 ->
+  bk_rate rate v V = index_increment rate v (dec_of_int V).
+Proof. intros H. unfold bk_rate, index_increment. destruct (Z.eqb_spec V 0); [contradiction|reflexivity]. Qed.
+
+(* each part is the pro rata share rate * v / V of the period's rate, within half a
+   unit of the 18th decimal upward and one and a half downward *)
+Lemma bk_rate_pro_rata rate v V : 0 <= rate -> 0 <= v -> 0 < V ->
+  let q := bk_rate rate v V in
+  2 * (q * V) <= 2 * (rate * v) * PREC + V /\ 2 * (rate * v) * PREC - 3 * V <= 2 * (q * V).
+Proof.
+  intros Hr Hv HV q. unfold q. rewrite bk_rate_is_index_increment by lia.
+  assert (P1 : 0 < PREC) by reflexivity.
+  pose proof (index_increment_bounds rate v (dec_of_int V) Hr Hv ltac:(unfold dec_of_int; nia)) as [B1 B2].
+  cbv zeta in B1, B2. unfold dec_of_int in *. set (x := index_increment rate v (V * PREC)) in *.
+  split; nia.
+Qed.
+
+Lemma bk_rate_zero_value rate V : bk_rate rate 0 V = 0.
+Proof.
+  unfold bk_rate. destruct (V =? 0); [reflexivity|].
+  unfold dec_mul, dec_of_int. rewrite Z.mul_0_l, Z.mul_0_r. apply dec_quo_zero.
+Qed.
+
+(* the parts never sum to more than the whole rate, up to half a unit of the 18th
+   decimal per part: for ANY list of vault values whose sum is at most the total
+   derivative value *)
+Lemma bk_split_sum rate V vs : 0 <= rate -> 0 < V -> Forall (fun v => 0 <= v) vs -> zsum vs <= V ->
+  2 * zsum (map (fun v => bk_rate rate v V) vs) <= 2 * rate * PREC + Z.of_nat (length vs).
+Proof.
+  intros Hr HV F S.
+  assert (G : 2 * (zsum (map (fun v => bk_rate rate v V) vs) * V)
+              <= 2 * (rate * zsum vs) * PREC + Z.of_nat (length vs) * V).
+  { clear S. induction F as [|v vs Hv F IH]; [cbn [map zsum fold_right length Z.of_nat]; lia|].
+    cbn [map zsum fold_right length]. fold (zsum (map (fun v => bk_rate rate v V) vs)). fold (zsum vs).
+    rewrite Nat2Z.inj_succ.
+    pose proof (bk_rate_pro_rata rate v V Hr Hv HV) as [B _]. cbv zeta in B. lia. }
+  assert (P1 : 0 < PREC) by reflexivity.
+  assert (rate * zsum vs <= rate * V) by nia.
+  assert (2 * (zsum (map (fun v => bk_rate rate v V) vs) * V) <= (2 * rate * PREC + Z.of_nat (length vs)) * V) by nia.
+  nia.
+Qed.
+
+(* the split does not depend on the order in which the vault denoms are visited:
+   a vault's rate is a function of its own value and of the total only *)
+Lemma bk_split_order rate V (vs vs' : list Z) : Permutation vs vs' ->
+  Permutation (map (fun v => bk_rate rate v V) vs) (map (fun v => bk_rate rate v V) vs').
+Proof. apply Permutation_map. Qed.
+
+(* what one bkava accumulation does to the vault's index, accrual time and the module account *)
+Lemma bk_acc_spec e st p pd v V stk st' : Inv e st -> bk_acc e st p pd v V stk = Ok st' tt ->
+  let dur := Z.max 0 (Z.min (now st) (p_end pd)
+                      - Z.max (match g_time st p with Some x => x | None => now st end) (p_start pd)) in
+  g_time st' p = Some (Z.min (p_end pd) (now st)) /\
+  (forall d, (d < ndenoms e)%nat ->
+     g_idx st' p d = g_idx st p d
+       + bk_increment (bk_rewards (bk_rate (p_rate pd d) v V) dur (stk d)) (tot st p) /\
+     macc st' d = macc st d + stk d) /\
+  (forall q d, q <> p -> g_idx st' q d = g_idx st q d /\ g_time st' q = g_time st q) /\
+  sh st' = sh st /\ tot st' = tot st /\ rew st' = rew st /\ u_idx st' = u_idx st /\ now st' = now st.
+Proof.
+  intros I H. unfold bk_acc in H.
+  destruct (Nat.ltb_spec p (npools e)) as [Hp|]; cbn [negb] in H; [|discriminate].
+  destruct (periods e p) eqn:Ep; [discriminate|].
+  destruct (period_ok (ndenoms e) pd) eqn:Pk; cbn [negb orb] in H; [|discriminate].
+  destruct (_ || _); [discriminate|].
+  destruct (period_ok_spec _ _ Pk) as [Ho _].
+  assert (Hprev : (match g_time st p with Some x => x | None => now st end) <= now st).
+  { destruct (g_time st p) as [x|] eqn:Eg; [apply (I_time e st I p x Eg)|lia]. }
+  rewrite elapsed_within_spec in H by lia.
+  inversion H; subst st'; clear H. cbv zeta. sproj. rewrite Nat.eqb_refl.
+  repeat split; try reflexivity.
+  - unfold bk_rw. apply Nat.ltb_lt in H. rewrite H. reflexivity.
+  - apply Nat.ltb_lt in H. rewrite H. reflexivity.
+  - destruct (Nat.eqb_spec q p); [contradiction|reflexivity].
+  - destruct (Nat.eqb_spec q p); [contradiction|reflexivity].
+Qed.
+
+(** * Parameter changes *)
+
+Record XInv (xs : xstate) : Prop := {
+  X_wf : env_wf (x_env xs);
+  X_inv : Inv (x_env xs) (x_st xs);
+  X_over : OverInv (x_env xs) (x_st xs)
+}.
+
+Lemma Inv_params e pds cend st : Inv e st -> Inv (with_params e pds cend) st.
+Proof. intros I. constructor; apply I. Qed.
+
+Lemma raw_ok_spec r : raw_ok r = true ->
+  p_start (of_raw r) <= p_end (of_raw r) /\ forall d, 0 <= p_rate (of_raw r) d.
+Proof.
+  destruct r as [[a b] rates]. cbn [raw_ok of_raw]. intros H. apply andb_prop in H. destruct H as [H1 H2].
+  split; [apply Z.leb_le; exact H1|]. intros d. unfold mk_period, p_rate, nthZ.
+  rewrite forallb_forall in H2. destruct (nth_in_or_default d rates 0) as [Hin|Hd]; [|rewrite Hd; lia].
+  apply Z.leb_le. apply H2. exact Hin.
+Qed.
+
+Lemma with_params_wf e pds cend :
+  forallb (fun r => match r with Some r => raw_ok r | None => true end) pds = true ->
+  env_wf (with_params e pds cend).
+Proof.
+  intros F. rewrite forallb_forall in F.
+  assert (G : forall p r, nth p pds None = Some r -> raw_ok r = true).
+  { intros p r E. destruct (nth_in_or_default p pds None) as [Hin|Hd]; [|congruence].
+    specialize (F _ Hin). rewrite E in F. exact F. }
+  constructor; cbn [with_params periods].
+  - intros p pd E. destruct (nth p pds None) as [r|] eqn:En; [|discriminate].
+    inversion E; subst. apply (raw_ok_spec r (G p r En)).
+  - intros p pd d E. destruct (nth p pds None) as [r|] eqn:En; [|discriminate].
+    inversion E; subst. apply (raw_ok_spec r (G p r En)).
+Qed.
+
+Lemma xstep_inv xs o xs' : XInv xs -> xstep xs o = Ok xs' tt -> XInv xs'.
+Proof.
+  intros [W I V] H. destruct o as [o|pds cend]; cbn [xstep] in H.
+  - destruct (step (x_env xs) (x_st xs) o) as [s' []| |] eqn:E; try discriminate.
+    inversion H; subst xs'; clear H. constructor; cbn [x_env x_st].
+    + exact W.
+    + eapply step_inv; eassumption.
+    + eapply step_over; eassumption.
+  - destruct (forallb _ pds) eqn:F; [|discriminate]. inversion H; subst xs'; clear H.
+    constructor; cbn [x_env x_st].
+    + apply with_params_wf. exact F.
+    + apply Inv_params. exact I.
+    + exact V.
+Qed.
+
+Lemma xrun_inv ops : forall xs, XInv xs -> XInv (xrun xs ops).
+Proof.
+  induction ops as [|o ops IH]; intros xs X; [exact X|].
+  cbn [xrun fold_left]. apply IH. unfold xstep'.
+  destruct (xstep xs o) as [s' []| |] eqn:E; [|exact X|exact X]. eapply xstep_inv; eassumption.
+Qed.
+
+Lemma xinit_inv e t0 m0 gt0 tot0 : env_wf e -> (forall p x, gt0 p = Some x -> x <= t0) -> (forall p, 0 <= tot0 p) ->
+  XInv (mkX e (init t0 m0 gt0 tot0)).
+Proof. intros W G GT. constructor; cbn [x_env x_st]; [exact W|apply init_inv; assumption|apply init_over]. Qed.
+
+(* replacing the reward periods and the claim end changes nothing in the state:
+   no claim, no index, no accrual time, no synchronised reward of anybody *)
+Lemma set_params_keeps_rewards xs pds cend xs' : xstep xs (SetParams pds cend) = Ok xs' tt ->
+  x_st xs' = x_st xs /\
+  (forall u d, pending (x_env xs') (x_st xs') u d = pending (x_env xs) (x_st xs) u d) /\
+  nusers (x_env xs') = nusers (x_env xs) /\ npools (x_env xs') = npools (x_env xs) /\
+  ndenoms (x_env xs') = ndenoms (x_env xs).
+Proof.
+  cbn [xstep]. destruct (forallb _ pds); [|discriminate]. intros H. inversion H; subst xs'; clear H.
+  cbn [x_env x_st]. repeat split.
+Qed.
+
+(* a refused parameter change leaves everything as it was *)
+Lemma xstep_failed xs o : (forall s' u, xstep xs o <> Ok s' u) -> xstep' xs o = xs.
+Proof.
+  intros H. unfold xstep'. destruct (xstep xs o) as [s' u| |] eqn:E; auto. exfalso. exact (H s' u eq_refl).
+Qed.
+
+(** * Meaning of [overshare]; what a position change synchronises with *)
+
+(* [overshare] moves only when time is accumulated, by (index increment) * (what the
+   users' shares exceed the pool total by) *)
+Lemma overshare_step e st o st' d : Inv e st -> step e st o = Ok st' tt ->
+  overshare st' d = overshare st d
+    + match o with
+      | Block t => sumN (npools e) (fun p => (g_idx st' p d - g_idx st p d) * excess e st p)
+      | BkAcc p _ _ _ _ => (g_idx st' p d - g_idx st p d) * excess e st p
+      | _ => 0
+      end.
+Proof.
+  intros I H. destruct o as [t|v p s' T'|p T'|v d0 m|ok|v p s'|p pd v V stk]; cbn [step] in H.
+  - unfold block in H. destruct (_ <? _); [discriminate|]. destruct (existsb _ _); [discriminate|].
+    inversion H; subst st'; clear H. sproj. f_equal. apply sN_ext. intros p _. f_equal. lia.
+  - unfold change in H. destruct (negb _); [discriminate|]. destruct (_ || _); [discriminate|].
+    destruct (_ =? 0); [inversion H; subst; unfold set_shares, init_claim; sproj; lia|].
+    destruct (has_claim st v); [|inversion H; subst; unfold set_shares; sproj; lia].
+    destruct (sync_ok e st v p); [inversion H; subst; unfold set_shares, sync_pool; sproj; lia|discriminate].
+  - unfold set_total in H. destruct (_ || _); [discriminate|]. inversion H; subst; sproj; lia.
+  - unfold claim in H. destruct m as [m|]; [|discriminate].
+    destruct (negb _); [discriminate|]. destruct (_ <? _); [discriminate|].
+    destruct (negb (has_claim st v)); [discriminate|]. destruct (negb _); [discriminate|].
+    destruct (_ <? 0); [discriminate|]. destruct (_ =? 0); [discriminate|]. destruct (_ <? _); [discriminate|].
+    inversion H; subst; sproj; lia.
+  - destruct ok; [inversion H; subst; lia|discriminate].
+  - unfold revalue in H. destruct (negb _); [discriminate|]. destruct (_ <? _); [discriminate|].
+    destruct (_ && _); [discriminate|]. inversion H; subst; sproj; lia.
+  - destruct (bk_acc_ok _ _ _ _ _ _ _ _ I H) as [dur [Hp [Ep [Hd [Hrw [Hs ->]]]]]]. cbv zeta. sproj.
+    rewrite Nat.eqb_refl. f_equal. f_equal. lia.
+Qed.
+
+(* a position change of a user who holds shares synchronises the claim with the
+   shares RECORDED since the user's previous synchronisation (the hook runs before
+   the source touches the position, interest synchronisation included), then records
+   the new shares and total; the index difference is consumed *)
+Lemma change_spec e st u p s' T' st' : change e st u p s' T' = Ok st' tt -> sh st u p <> 0 ->
+  has_claim st u = true ->
+  (forall d, rew st' u d = rew st u d + sync_reward (g_idx st p d - u_idx st u p d) (sh st u p)
+             /\ u_idx st' u p d = g_idx st p d) /\
+  sh st' u p = s' /\ tot st' p = T' /\ g_idx st' = g_idx st /\
+  (forall v d, v <> u -> rew st' v d = rew st v d) /\
+  (forall v q, (v <> u \/ q <> p) -> sh st' v q = sh st v q /\ forall d, u_idx st' v q d = u_idx st v q d).
+Proof.
+  intros H Hold Hc. unfold change in H.
+  destruct (negb _); [discriminate|]. destruct (_ || _); [discriminate|].
+  destruct (Z.eqb_spec (sh st u p) 0); [contradiction|]. rewrite Hc in H.
+  destruct (sync_ok e st u p); [|discriminate]. inversion H; subst st'; clear H.
+  unfold set_shares, sync_pool; sproj. rewrite !Nat.eqb_refl. cbn [andb].
+  repeat split; try reflexivity.
+  - intros v d Hv. destruct (Nat.eqb_spec v u); [contradiction|reflexivity].
+  - destruct H as [Hv|Hq].
+    + destruct (Nat.eqb_spec v u); [contradiction|reflexivity].
+    + destruct (Nat.eqb_spec q p); [contradiction|]. rewrite Bool.andb_false_r. reflexivity.
+  - intros d. destruct H as [Hv|Hq].
+    + destruct (Nat.eqb_spec v u); [contradiction|reflexivity].
+    + destruct (Nat.eqb_spec q p); [contradiction|]. rewrite Bool.andb_false_r. reflexivity.
+Qed.
+
+(* the bkava vaults can be accumulated in any order: for two different vaults the
+   indexes, accrual times and the module account end up the same (the keeper sorts
+   the vault denoms only to make the order of its store writes deterministic) *)
+Lemma bk_acc_commute e st p q pd v1 v2 V stk1 stk2 st1 st2 st1' st2' :
+  Inv e st -> p <> q ->
+  bk_acc e st p pd v1 V stk1 = Ok st1 tt -> bk_acc e st1 q pd v2 V stk2 = Ok st2 tt ->
+  bk_acc e st q pd v2 V stk2 = Ok st1' tt -> bk_acc e st1' p pd v1 V stk1 = Ok st2' tt ->
+  (forall r d, (d < ndenoms e)%nat -> g_idx st2 r d = g_idx st2' r d) /\
+  (forall r, g_time st2 r = g_time st2' r) /\
+  (forall d, (d < ndenoms e)%nat -> macc st2 d = macc st2' d) /\
+  sh st2 = sh st2' /\ tot st2 = tot st2' /\ rew st2 = rew st2' /\ u_idx st2 = u_idx st2' /\ now st2 = now st2'.
+Proof.
+  intros I Hpq A1 A2 B1 B2.
+  pose proof (bk_acc_inv _ _ _ _ _ _ _ _ I A1) as I1.
+  pose proof (bk_acc_inv _ _ _ _ _ _ _ _ I B1) as I1'.
+  destruct (bk_acc_spec _ _ _ _ _ _ _ _ I A1) as [T1 [G1 [O1 [S1 [To1 [R1 [U1 N1]]]]]]].
+  destruct (bk_acc_spec _ _ _ _ _ _ _ _ I1 A2) as [T2 [G2 [O2 [S2 [To2 [R2 [U2 N2]]]]]]].
+  destruct (bk_acc_spec _ _ _ _ _ _ _ _ I B1) as [T1' [G1' [O1' [S1' [To1' [R1' [U1' N1']]]]]]].
+  destruct (bk_acc_spec _ _ _ _ _ _ _ _ I1' B2) as [T2' [G2' [O2' [S2' [To2' [R2' [U2' N2']]]]]]].
+  cbv zeta in *.
+  assert (Hqp : q <> p) by (intro; apply Hpq; congruence).
+  repeat split; try congruence.
+  - intros r d Hd. destruct (Nat.eq_dec r p) as [->|Hrp].
+    + (* vault p *)
+      destruct (O2 p d Hpq) as [E2 _]. rewrite E2. destruct (G1 d Hd) as [E1 _]. rewrite E1.
+      destruct (G2' d Hd) as [E2' _]. rewrite E2'. destruct (O1' p d Hpq) as [E1' Et']. rewrite E1', Et', N1', To1'. reflexivity.
+    + destruct (Nat.eq_dec r q) as [->|Hrq].
+      * destruct (G2 d Hd) as [E2 _]. rewrite E2. destruct (O1 q d Hqp) as [E1 Et]. rewrite E1, Et, N1, To1.
+        destruct (O2' q d Hqp) as [E2' _]. rewrite E2'. destruct (G1' d Hd) as [E1' _]. rewrite E1'. reflexivity.
+      * destruct (O2 r d Hrq) as [E2 _]. destruct (O1 r d Hrp) as [E1 _].
+        destruct (O2' r d Hrp) as [E2' _]. destruct (O1' r d Hrq) as [E1' _]. congruence.
+  - intros r. destruct (Nat.eq_dec r p) as [->|Hrp].
+    + destruct (O2 p 0%nat Hpq) as [_ E2]. rewrite E2, T1, T2', N1'. reflexivity.
+    + destruct (Nat.eq_dec r q) as [->|Hrq].
+      * destruct (O2' q 0%nat Hqp) as [_ E2']. rewrite E2', T1', T2, N1. reflexivity.
+      * destruct (O2 r 0%nat Hrq) as [_ E2]. destruct (O1 r 0%nat Hrp) as [_ E1].
+        destruct (O2' r 0%nat Hrp) as [_ E2']. destruct (O1' r 0%nat Hrq) as [_ E1']. congruence.
+  - intros d Hd. destruct (G2 d Hd) as [_ M2]. destruct (G1 d Hd) as [_ M1].
+    destruct (G2' d Hd) as [_ M2']. destruct (G1' d Hd) as [_ M1']. lia.
 Qed.
